@@ -96,6 +96,7 @@ Definition compact_settings (v : val) : val :=
   end.
 Definition settings_head (flags n : Z) : bytes := cf_header 4 flags (u32 (n * 8 + 4)) ++ be32 (u32 n).
 Definition run_settings_compact (flags n : Z) : val :=
+  if 1024 <? n then VL [VB []; VZ 0; VL (if n <=? 1100 then read_stream 8 (at_off ping7 0) else [])] else
   let rb := if n <=? 1100 then
               let w := fst (write_frame (FSettings flags (repeat (0, 4, 100) (Z.to_nat n)))) ++ ping7 in
               map compact_settings (read_stream 8 (at_off w 0))
@@ -182,7 +183,7 @@ Definition agree_C39 (i o : val) : bool :=
   | VL [VZ 5; _; _; _; _] => val_eqb (run_C39 i) o
   | VL [VZ 6; VZ kind; VZ fl; VZ sid; VZ _] =>
     match o with
-    | VL [VB h; VZ w] => bytes_eqb h (hdr_head kind fl sid (w - 12))
+    | VL [VB h; VZ w] => if w =? 0 then bytes_eqb h [] else bytes_eqb h (hdr_head kind fl sid (w - 12)) && (w - 8 <=? 2^24 - 1)
     | _ => false
     end
   | VL [VZ 7; _; _] => val_eqb (run_C39 i) o
@@ -254,7 +255,7 @@ Definition spec_frame (v : val) : option val :=
   | _ => None
   end.
 
-(* frame boundaries: every returned frame or stream-level *Error consumed exactly 8 + length bytes
+(* frame boundaries: every returned frame consumed exactly 8 + length bytes
    (or everything, when the input ends inside the frame) *)
 Definition hdr_len (w : bytes) (start : Z) : option Z :=
   if (0 <=? start) && (start + 8 <=? blen w) then
@@ -267,7 +268,7 @@ Fixpoint bounds_ok (w : bytes) (start : Z) (es : list val) {struct es} : bool :=
   | VL [r; VZ o] :: rest =>
     match r with
     | VL (VZ t :: _) =>
-      if (t =? -4) || (t =? -8) || (t =? -9) then true
+      if t <? 0 then true                      (* an error ends the session: nothing is read after it *)
       else match hdr_len w start with
            | Some l => ((o =? start + 8 + l) || ((blen w <? start + 8 + l) && (o =? blen w))) && bounds_ok w o rest
            | None => false
@@ -296,7 +297,7 @@ Definition prop_C39 (i o : val) : bool :=
     end
   | VL [VZ 2; _; VB b] =>
     match o with
-    | VL [VZ _; VZ _; _; VZ _; VZ mx] => mx <=? zmax 4 (blen b)       (* no buffer larger than the block *)
+    | VL [VZ _; VZ _; _; VZ _; VZ mx] => mx <=? 4096        (* never asks for more than one 4096-byte chunk at a time *)
     | _ => false
     end
   | VL [VZ 3; VL fl] =>
@@ -329,22 +330,24 @@ Definition prop_C39 (i o : val) : bool :=
       end
   | VL [VZ 6; VZ kind; VZ fl; VZ sid; VZ _] =>
     (* the length field is the payload length and the flags are the caller's *)
-    match o with
-    | VL [VB h; VZ w] =>
-      let second := dec32 (firstn 4 (skipn 4 h)) in (second / 2^24 =? fl) && (second mod 2^24 =? w - 8)
-    | _ => false
+    match o, i with
+    | VL [VB h; VZ w], VL [_; _; _; _; VZ vlen] =>
+      if w =? 0 then 2^24 - 20000 <? vlen            (* refused: only legitimate for a block that cannot fit 24 bits *)
+      else let second := dec32 (firstn 4 (skipn 4 h)) in
+           (second / 2^24 =? fl) && (second mod 2^24 =? w - 8) && (vlen <? 2^24 - 17)
+    | _, _ => false
     end
   | VL [VZ 7; VZ fl; VZ n] =>
     match o with
     | VL [VB h; VZ w; VL es] =>
+      if 1024 <? n then w =? 0                      (* more than MaxNumSettings entries: refused, nothing written *)
+      else
       let second := dec32 (firstn 4 (skipn 4 h)) in
       (second / 2^24 =? fl) && (second mod 2^24 =? w - 8) && (w =? 12 + 8 * n) &&
-      (if n <=? 1100 then
-         match es with
-         | VL [VL [VZ 4; VZ 3; VZ f'; VZ l'; VZ cnt]; VZ o1] :: _ => (f' =? fl) && (cnt =? n) && (o1 =? w)
-         | _ => false
-         end
-       else true)
+      match es with
+      | VL [VL [VZ 4; VZ 3; VZ f'; VZ l'; VZ cnt]; VZ o1] :: _ => (f' =? fl) && (cnt =? n) && (o1 =? w)
+      | _ => false
+      end
     | _ => false
     end
   | _ => false
@@ -376,25 +379,5 @@ Definition underflow_at (w : bytes) (start : Z) : bool :=
     ctl && (((typ =? 1) && (l <? 10)) || (((typ =? 2) || (typ =? 8)) && (l <? 4)))
   | None => false
   end.
-Definition kf_C39 (i : val) : Z :=
-  match i with
-  | VL [VZ 2; _; VB b] =>
-    match parse_block rd_plain b with
-    | PIo _ _ mx | PDone _ _ _ _ mx => if zmax 4 (blen b) <? mx then 2 else 0
-    | _ => 0
-    end
-  (* 4: writers without a length check: header block of 2^24 - 4 bytes or more, SETTINGS with more than
-        1024 entries (unreadable) or 2^21 and more (length wraps into the flags byte) *)
-  | VL [VZ 6; _; _; _; VZ vlen] => if 2^24 - 200 <=? vlen then 4 else 0
-  | VL [VZ 7; _; VZ n] => if 1024 <? n then 4 else 0
-  | VL [VZ 4; VB w; _] =>
-    match run_C39 i with
-    | VL ml =>
-      (* 3: the model's own trace loses a boundary, or the declared length does not match the compressed
-         block so that the zlib stream desynchronises (includes SYN_STREAM shorter than its fixed part) *)
-      if negb (bounds_ok w 0 ml) then 3
-      else let '(s, d) := last_start ml 0 in if d then 3 else 0
-    | _ => 0
-    end
-  | _ => 0
-  end.
+(* all four finding classes of C39 are repaired in /repo: no known-finding class is left *)
+Definition kf_C39 (i : val) : Z := 0.
